@@ -113,6 +113,55 @@ def rng_vs_single(rep, sites=RNG_SITES):
     rep.extra["range_vs_single_native"] = {"ranges": len(sites), "days compared": n}
 
 
+def rng_history(rep):
+    """Native assumption check (sampling): the range API is history independent - a range computed after another range (or single
+    dates) that shares its dates but differs in ONE argument (a cache keyed on too few of the arguments, e.g. the GMT offset truncated
+    to whole hours) still equals the per-day results of a fresh process."""
+    import copy
+    bases = [{"lat": 28.6, "lon": 77.2, "gmt": 5.5, "params": {"method": "Isna"}, "start": "2024-02-18", "end": "2024-02-24"},
+             {"lat": 47.56, "lon": -52.71, "gmt": -3.5, "params": {"method": "Mwl"}, "start": "2024-12-28", "end": "2025-01-03"}]
+    n = 0
+    for b in bases:
+        s, e = datetime.date.fromisoformat(b["start"]).toordinal(), datetime.date.fromisoformat(b["end"]).toordinal()
+        days = [dstr(s + i) for i in range(e - s + 1)]
+        def singles(c):
+            return replay.run([{"api": "prayer_times_dt", "lat": c["lat"], "lon": c["lon"], "gmt": c["gmt"], "elev": c.get("elev", 0.0),
+                                "params": c["params"], "date": d} for d in days])
+        fresh_b = singles(b)
+        variants = []
+        for k, v in (("gmt", b["gmt"] - 0.5), ("gmt", b["gmt"] + 0.25), ("gmt", b["gmt"] + 1.0), ("lat", b["lat"] + 0.7), ("lon", b["lon"] - 3.0),
+                     ("elev", 900.0)):
+            q = copy.deepcopy(b)
+            q[k] = v
+            variants.append((k, q))
+        for k, v in (("method", "Egyptian"), ("round", "NormalRounding"), ("ext", "SeventhOfNightFajrIshaAlways")):
+            q = copy.deepcopy(b)
+            q["params"][k] = v
+            variants.append((k, q))
+        for k, q in variants:
+            fresh_q = None
+            for api, extra in (("prayer_times_dt_rng", {}), ("prayer_times_dt_rng_block", {"min_days": 1})):
+                first, second = dict(q, api=api, **extra), dict(b, api=api, **extra)
+                for order, judged, fresh in (([first, second], 1, fresh_b), ([second, first], 1, None)):
+                    if fresh is None:
+                        fresh_q = fresh_q or singles(q)
+                        fresh = fresh_q
+                    outs = replay.run(order, single_timeout=60)
+                    r = outs[judged]
+                    n += 1
+                    got = r.get("days")
+                    if got is None or sorted(got.keys()) != days or any(got[d] != f.get("times") for d, f in zip(days, fresh)):
+                        bad = next((d for d, f in zip(days, fresh) if got is None or got.get(d) != f.get("times")), days[0])
+                        rep.violation("range-hidden-state", "%s %s..=%s (lat %s, gmt %s) differs from the per-day results of a fresh process when the "
+                                      "same process first computed the same range with a different %s: entry %s is %r, fresh single-date call gives %r"
+                                      % (api, b["start"], b["end"], order[1]["lat"], order[1]["gmt"], k, bad, (got or {}).get(bad),
+                                         next(f.get("times") for d, f in zip(days, fresh) if d == bad)),
+                                      order + [dict(order[1], api="prayer_times_dt", date=bad, expect_from_range=True)], {"range_after_other": (got or {}).get(bad)})
+                        return True
+    rep.extra["range_history_native"] = {"pairs": n}
+    return False
+
+
 def partition_grid(rep):
     """Native judge of DateRange (used when a partition / num_days obligation is undecided, and in the thorough tier): every (days, k)
     with days in -2..45 and k in 0..14, plus a few long ranges, through the public num_days()/partition()."""
@@ -168,6 +217,7 @@ def run(rep):
         if not repro:
             rep.inconclusive.append("solver counterexamples did not reproduce natively: %r" % (metas[:3],))
     rng_vs_single(rep)
+    rng_history(rep)
     if not quick or any((x["inconclusive"] or x["cands"]) for x in results if "partition" in x["name"] or "num_days" in x["name"]):
         partition_grid(rep)
     rep.samples = [{"obligation": o["name"], "status": o["status"], "paths": o.get("paths")} for o in rep.obligations[:6]]
@@ -175,6 +225,10 @@ def run(rep):
 
 def judge_replay(case, results):
     cs = case.get("cases", [case])
+    if len(cs) == 3 and cs[2].get("expect_from_range") and len(results) == 3:
+        from .. import replay as _rp
+        fresh = _rp.run([cs[2]])[0]
+        return "days" not in results[1] or results[1]["days"].get(cs[2]["date"]) != fresh.get("times")
     if len(cs) == 2 and cs[0].get("expect_day") and len(results) == 2:
         return "days" not in results[0] or results[0]["days"].get(cs[0]["expect_day"]) != results[1].get("times")
     for c, r in zip(cs, results):
